@@ -58,9 +58,12 @@ Definition str_ok (v : option value) : option string :=
   match v with Some (VStr s) => Some s | _ => None end.
 Definition bool_ok (v : option value) : bool :=
   match v with Some (VBool b) => b | _ => false end.
-(* wamp.AsInt64 *)
+(* wamp.AsInt64: every integer kind and float64 (truncated); a uint64 above
+   MaxInt64 wraps to a negative int64 (Go conversion) *)
+Definition wrap64 (z : Z) : Z :=
+  if (9223372036854775808 <=? z)%Z then (z - 18446744073709551616)%Z else z.
 Definition as_int64 (v : option value) : Z :=
-  match v with Some (VInt z) => z | Some (VFloat z) => z | _ => 0%Z end.
+  match v with Some (VInt z) => wrap64 z | Some (VFloat z) => z | _ => 0%Z end.
 
 (* error codes *)
 Definition E_SERIALIZER_INVALID := 1%nat.
